@@ -188,6 +188,9 @@ func runC07(c *lib.Ctx) {
 	}
 	unknown := map[string]int{}
 	avoid := func(cell, exit string) bool {
+		if exit == "c01" { // a construct listed as a C01 finding
+			return c.Findings.Listed("C01", "cell="+cell+" ")
+		}
 		if !known[cell] {
 			unknown[cell]++
 			return true
